@@ -468,6 +468,26 @@ theorem famous_agree {A B : E → Prop} (hA : View A U) (hB : View B U) {r : Int
     FamousIn ps A r x ↔ FamousIn ps B r x :=
   ⟨famous_transfer H hA hB dB, famous_transfer H hB hA dA⟩
 
+include H in
+/-- **the famous set of a decided round is final**: once a view `A` has declared round `r` decided,
+    in every larger view `B` of the same history (the same node later, or any node holding more) the
+    witnesses of round `r` decided famous are exactly `A`'s famous witnesses — this is what allows
+    `RoundInfo` to latch `decided` and `DecideFame` to stop looking at the round -/
+theorem famous_set_final {A B : E → Prop} (hA : View A U) (hB : View B U) (hAB : ∀ e, A e → B e) {r : Int}
+    (dA : RoundDecided ps A r) (x : E) (hBx : B x) (hw : wit ps x = true) (hr : round ps x = r) :
+    DecidedIn ps B x true ↔ FamousIn ps A r x := by
+  constructor
+  · rintro ⟨y, hBy, hd⟩
+    have hUx := hB.sub x hBx
+    have hUy := hB.sub y hBy
+    by_cases hAx : A x
+    · obtain ⟨b, y', hAy', hd'⟩ := dA.1 x hAx hw hr
+      have : true = b := dag_fame_agreement H hUx hUy (hA.sub y' hAy') hd hd'
+      exact ⟨hAx, hw, hr, y', hAy', by rw [this]; exact hd'⟩
+    · exact absurd hd (dag_late_witness_not_famous H hA dA hUx hr hAx y hUy)
+  · rintro ⟨_, _, _, y, hAy, hd⟩
+    exact ⟨y, hAB y hAy, hd⟩
+
 /-! ## round received -/
 
 section
